@@ -22,7 +22,7 @@ func init() {
 				"(sig) every function that turns (hash, R, S, V) into an address — RecoverPlain in the transaction package, recoverPlain in the check package — reaches crypto.Ecrecover only behind `V.BitLen() > 8 ⇒ reject` and `ValidateSignatureValues(byte(V−27), R, S, true)` with the constant `true` (low-S rule) on the very R, S it then serialises, and ValidateSignatureValues itself rejects s > halfN under that flag and v ∉ {0,1}; Transaction.Sender for single signatures returns exactly RecoverPlain(tx.Hash(), sig.R, sig.S, sig.V) and Check.Sender recoverPlain(check.Hash(), R, S, V); " +
 				"(who) no other function in those packages derives an address from a signature.",
 			Assumptions: stdAssumptions,
-			Rules:       []string{"C23.decode", "C23.tags", "C23.sig", "C23.who"},
+			Rules:       []string{"C23.decode", "C23.tags", "C23.sig", "C23.who", "C23.canon"},
 		},
 		Run: runC23,
 	})
@@ -31,6 +31,7 @@ func init() {
 const pkgCheck = "coreV2/check"
 
 func runC23(c *core.Ctx) {
+	defer checkCanonicalIntegers(c, "C23.canon")
 	// ---- decode
 	n := 0
 	for _, pk := range []string{core.PkgTx, pkgCheck} {
@@ -305,7 +306,7 @@ func checkValidateSig(c *core.Ctx) {
 	// a `return false` governed by  homestead && s.Cmp(halfN) > 0   and the final conjunct v == 0 || v == 1
 	var s, v, hs *ssa.Parameter
 	for _, p := range fn.Params {
-		switch p.Name() {
+		switch core.ParamName(p) {
 		case "s":
 			s = p
 		case "v":
@@ -406,4 +407,110 @@ func checkSenders(c *core.Ctx) {
 			c.Unk("C23.sig", "Check.Sender", token.NoPos, "method not found")
 		}
 	}
+}
+
+// checkCanonicalIntegers — C23.canon. RLP admits one encoding per integer: no leading zero
+// bytes. The decoder enforces it where a byte string becomes a big integer — before every
+// (*big.Int).SetBytes in the rlp package the decoded bytes are tested `len(b) > 0 && b[0] == 0`
+// and that case is rejected — and in Stream.uint for machine integers. Without the test the same
+// transaction has many accepted byte forms (signature R/S with a zero prefix), i.e. many hashes.
+func checkCanonicalIntegers(c *core.Ctx, rule string) {
+	n := 0
+	for _, fn := range c.SrcFuncs("rlp") {
+		if fn.Blocks == nil {
+			continue
+		}
+		k := 0
+		for _, s := range core.Sites(fn) {
+			if s.Callee != "(*math/big.Int).SetBytes" || len(s.Common.Args) != 2 {
+				continue
+			}
+			n++
+			k++
+			b := s.Common.Args[1]
+			guarded := false
+			for _, g := range core.GatesBefore(s.Instr) {
+				bin, ok := g.If.Cond.(*ssa.BinOp)
+				if !ok || (bin.Op != token.EQL && bin.Op != token.NEQ) {
+					continue
+				}
+				if kk, ok := core.ConstInt(bin.Y); !ok || kk != 0 {
+					continue
+				}
+				// b[0]
+				ld, ok := core.Unwrap(bin.X).(*ssa.UnOp)
+				if !ok {
+					continue
+				}
+				ia, ok := ld.X.(*ssa.IndexAddr)
+				if !ok || core.Unwrap(ia.X) != core.Unwrap(b) {
+					continue
+				}
+				if idx, ok := core.ConstInt(ia.Index); !ok || idx != 0 {
+					continue
+				}
+				// the path to SetBytes is the one where b[0] != 0
+				if (bin.Op == token.EQL && !g.PassTrue) || (bin.Op == token.NEQ && g.PassTrue) {
+					guarded = true
+				}
+			}
+			// an empty string (zero) has no first byte: `len(b) > 0 &&` makes the b[0] test
+			// conditional, so the gate is only "passed false" on the non-empty side; accept the
+			// short-circuit form: SetBytes reachable either with len(b) == 0 or with b[0] != 0
+			if !guarded {
+				guarded = leadingZeroRejected(s, b)
+			}
+			c.Check(guarded, rule, fmt.Sprintf("%s/SetBytes#%d", core.ShortFn(fn), k), s.Pos(), "bytes with a leading zero are rejected before they become an integer",
+				"a byte string is turned into a big integer without rejecting a leading zero byte: non-canonical encodings of the same integer (and so of the same transaction) are accepted")
+		}
+	}
+	c.Floor(rule, n, 1, "byte-string-to-integer conversions in the rlp decoder")
+}
+
+// leadingZeroRejected: some If in the function tests b[0] == 0 (possibly behind len(b) > 0), its
+// "is zero" edge does not reach the SetBytes call, and it lies on the way to the call.
+func leadingZeroRejected(s *core.Site, b ssa.Value) bool {
+	fn := s.Fn
+	for _, blk := range fn.Blocks {
+		iff := core.IfOf(blk)
+		if iff == nil {
+			continue
+		}
+		bin, ok := iff.Cond.(*ssa.BinOp)
+		if !ok || (bin.Op != token.EQL && bin.Op != token.NEQ) {
+			continue
+		}
+		if kk, ok := core.ConstInt(bin.Y); !ok || kk != 0 {
+			continue
+		}
+		ld, ok := core.Unwrap(bin.X).(*ssa.UnOp)
+		if !ok {
+			continue
+		}
+		ia, ok := ld.X.(*ssa.IndexAddr)
+		if !ok || core.Unwrap(ia.X) != core.Unwrap(b) {
+			continue
+		}
+		if idx, ok := core.ConstInt(ia.Index); !ok || idx != 0 {
+			continue
+		}
+		zeroEdge := blk.Succs[0]
+		if bin.Op == token.NEQ {
+			zeroEdge = blk.Succs[1]
+		}
+		if zeroEdge == s.Block() || core.ReachFrom(zeroEdge, nil)[s.Block()] {
+			continue // the zero case still reaches SetBytes
+		}
+		// the test must be unavoidable for non-empty strings: the only way around it is the
+		// len(b) test that guards the index expression
+		if len(blk.Preds) == 1 {
+			if piff := core.IfOf(blk.Preds[0]); piff != nil && blk.Preds[0].Dominates(s.Block()) {
+				return true
+			}
+		}
+		if blk.Dominates(s.Block()) {
+			return true
+		}
+	}
+	return false
 }
